@@ -306,7 +306,8 @@ def tag_documents(rng, quick):
                         continue
                     used.add((m2, p))
                     # half of the time the parenthesised method has an EARLIER sibling (the ')' returns to the URL, not to it)
-                    m0 = rng.choice([x for x in (b"PATCH", b"DELETE") if x != m and (x, p) not in used]) if rng.random() < 0.5 else None
+                    free0 = [x for x in (b"PATCH", b"DELETE") if x != m and (x, p) not in used]
+                    m0 = rng.choice(free0) if (free0 and rng.random() < 0.5) else None
                     pre0 = b""
                     if m0 is not None and (m0, p) not in used:
                         used.add((m0, p))
